@@ -231,6 +231,17 @@ def generic_rules(body):
         if not cm or not recv or re.search(r'\b(return|break|continue)\b|\?', mask(cm.group(3))):
             raise LostAnchor('rule R12: map_or whose receiver/arguments are not `postfix-chain.map_or(literal-or-path, |v| expr)`')
         edits.append((recv_start, cl + 1, '(match %s { Some(%s) => %s, None => %s })' % (recv, cm.group(2), cm.group(3), cm.group(1)), 'R12'))
+    # D12  format!(..) => verif_format()   (a String whose content no contract depends on; prelude/std_extra.rs)
+    for h in re.finditer(r'\bformat!\s*\(', m):
+        op = h.end() - 1
+        cl = match_brace(m, op)
+        edits.append((h.start(), cl + 1, 'verif_format()', 'D12'))
+    # U2 (generic)  Page::from_buf(&D, I, P) => page_at(&D, I, P): the unsafe cast into the map, by the stub whose contract
+    #      carries the alignment/bounds precondition that Kani unit K4 derives for the real cast (prelude/mmap.rs)
+    for h in re.finditer(r'\bPage::from_buf\s*\(', m):
+        op = h.end() - 1
+        cl = match_brace(m, op)
+        edits.append((h.start(), cl + 1, 'page_at(%s)' % body[op + 1:cl].strip(), 'U2'))
     # R11  V.binary_search(&E) => V.binary_search_v(&E)   (trait shim with std's full contract for an ascending u64 list, prelude/sortv.rs)
     for h in re.finditer(r'\.\s*binary_search\s*\(', m):
         edits.append((h.start(), h.end(), '.binary_search_v(', 'R11'))
